@@ -65,13 +65,26 @@ def _claimed_point(d, data):
     return P if rec.on_curve(d.c, P) else None
 
 
-def judge_string(ctx, d, data, enum=False, entry="from_string"):
+def _carrier(data, carrier):
+    """the same octets in another bytes-like object"""
+    if carrier == "bytearray":
+        return bytearray(data)
+    if carrier == "view":
+        return memoryview(bytearray(data))
+    if carrier == "view2d" and len(data) >= 4 and len(data) % 2 == 0:
+        return memoryview(bytearray(data)).cast("B", shape=[len(data) // 2, 2])     # len() is half the octet count
+    if carrier == "view2d-rows" and len(data) >= 4 and len(data) % 2 == 0:
+        return memoryview(bytearray(data)).cast("B", shape=[2, len(data) // 2])
+    return data
+
+
+def judge_string(ctx, d, data, enum=False, entry="from_string", carrier=None):
     ctx.ev()
     want = rpoints.decode(d.c, d.n, data, allow_raw=True)
-    case = {"kind": "string", "curve": d.name, "data": data.hex()}
+    case = {"kind": "string", "curve": d.name, "data": data.hex(), "carrier": carrier}
     ctx.case_sample(case)
     try:
-        vk = VerifyingKey.from_string(data, curve=d.lib)
+        vk = VerifyingKey.from_string(_carrier(data, carrier), curve=d.lib)
         got = ("ok", (int(vk.pubkey.point.x()), int(vk.pubkey.point.y())))
     except MalformedPointError:
         got = ("bad",)
@@ -342,6 +355,17 @@ def named_cases(ctx, cname, per, seed):
                 break
         for data in inputs:
             judge_string(ctx, d, data)
+        # the same octets in other bytes-like carriers; in particular strings of twice a valid length in a
+        # two-dimensional view (whose len() is the valid length)
+        zx, zy = bytes(l) + xb, bytes(l) + yb
+        doubles = [zx + zy, xb + yb + xb + yb, b"".join(bytes((v, 0)) for v in xb + yb),
+                   b"\x04" + xb + yb + b"\x04" + xb + yb, b"".join(bytes((v, 0)) for v in b"\x04" + xb + yb),
+                   b"".join(bytes((v, 0)) for v in inputs[2]) if len(inputs) > 2 else zx + zy]
+        for data in doubles:
+            for carrier in ("view2d", "view2d-rows"):
+                judge_string(ctx, d, data, carrier=carrier)
+        for i, data in enumerate(inputs):
+            judge_string(ctx, d, data, carrier=("bytearray", "view", "view2d", "view2d-rows")[i % 4])
         # point objects
         for how in IDENTITY_OBJECTS:
             judge_identity(ctx, d, how)
@@ -475,7 +499,7 @@ def replay(ctx, case):
         return
     d = gen.dom(case["curve"])
     if case["kind"] == "string":
-        judge_string(ctx, d, bytes.fromhex(case["data"]))
+        judge_string(ctx, d, bytes.fromhex(case["data"]), carrier=case.get("carrier"))
     elif case["kind"] == "point":
         judge_point(ctx, d, case["x"], case["y"], case["obj"])
     elif case["kind"] == "identity":
